@@ -42,7 +42,7 @@ ASSUMPTIONS = [
 ]
 DELETABLE = ()
 
-KINDS = ("plain", "stream")
+KINDS = ("plain", "stream", "mqtt")
 FAULTS = ("none", "connect", "body", "disconnect", "body+disconnect")
 FILES = ("missing", "empty", "registry")
 FILE_REGISTRY = {"3": {"node_id": 3, "node_type": 17, "protocol_version": "2.2.0", "sketch_name": "from file", "sketch_version": "1", "battery_level": 50,
